@@ -357,6 +357,7 @@ func main() {
 		in, kind := vh.Mutate(r, fixtures[fi].Gen(r, r.Between(0, 8)))
 		sum.Hist("input:" + kind)
 		sum.Hist("format:" + fixtures[fi].Format)
+		vh.Current(o, map[string]interface{}{"handler": "builtin", "format": fixtures[fi].Format, "schema": fixtures[fi].Schema, "input_hex": fmt.Sprintf("%x", in)})
 		t, log, err := schemas[fi].NewTransform("in", bytesReader(in))
 		if err != nil {
 			sum.Hist("newtransform-error")
